@@ -16,7 +16,8 @@ RULE = ("cases = own MapSpec AST generator (vlib.mapgen: 1..4 probe functions, r
         "outputs, functions without MapSpec incl. array-returning ones whose MapSpec pipefunc autogenerates, list vs ndarray inputs) from VERIF_SEED, plus a fixed list of "
         "structural regression shapes; each run sequentially under file_array / dict / shared_memory_dict / "
         "per-output mixes; every third generated case additionally repeats the map with cleanup=False after a first run that was "
-        "cut short by a fault in one invocation (a raise, or an unstorable last output of a tuple-output function); non-trivial = some MapSpec function with >=2 external elements, a ':' reduction or an "
+        "cut short by a fault in one invocation; every third one maps the same pipeline object twice into the same folder (other "
+        "input values first) with one invocation returning None; numeric int64 input arrays for a quarter of the cases; first runs cut short by a fault in one invocation (a raise, or an unstorable last output of a tuple-output function); non-trivial = some MapSpec function with >=2 external elements, a ':' reduction or an "
         "internal axis; distinct = distinct (MapSpec strings, internal shapes, input shapes and kinds)")
 ASSUMPTIONS = ["oracle is the denotation of the harness's own AST (vlib.mapgen.oracle); never imports pipefunc",
                "probe functions return term strings, so equality of renderings is equality of call trees",
@@ -146,7 +147,7 @@ def get_case(desc):
     if desc["kind"] == "literal":
         return desc["case"]
     return mapgen.case_from_seed(desc["seed"], desc["i"], allow_autogen=desc["i"] % 2 == 1, allow_renames=desc["i"] % 3 == 0,
-                                 allow_bound=desc["i"] % 5 == 0)
+                                 allow_bound=desc["i"] % 5 == 0, allow_int_arrays=desc["i"] % 4 == 3)
 
 
 def storage_arg(case, st, i):
@@ -283,6 +284,55 @@ def check_repeat_after_fault(v, case, env, exp_calls, scratch, i):
                 return
 
 
+def check_same_object_again(v, case, scratch, i):
+    """The SAME pipeline object maps twice into the SAME folder: first with other input values (and that run is
+    loaded), then with the inputs that are judged; a None-valued element is produced by one invocation."""
+    from pipefunc.map import load_outputs
+
+    inputs = mapgen.make_inputs(case)
+    _, calls0 = mapgen.oracle(case, inputs)
+    none = None
+    for f in case["funcs"]:
+        if (f["mapspec"] and len(f["outs"]) == 1 and not f["internal_shape"] and len(calls0[f["name"]]) >= 2
+                and any(isinstance(m, list) for m in f["modes"].values())):
+            none = (f["name"], calls0[f["name"]][-1][1])
+            break
+    env, _ = mapgen.oracle(case, inputs, none_terms=({none[1]} if none else ()))
+    folder = os.path.join(scratch, "run-again")
+    w = dict(case=mapgen.describe(case), none_valued_invocation=none)
+    try:
+        with quiet():
+            p = mapgen.build_pipeline(case, fault=({none[0]: {"none": {none[1]: 1}}} if none else None))
+            kw = dict(run_folder=folder, internal_shapes=mapgen.internal_shapes_arg(case), storage="file_array", parallel=False)
+            p.map(mapgen.variant_inputs(inputs), **kw)
+            for f in case["funcs"]:
+                load_outputs(f["outs"][0], run_folder=folder)
+            res = p.map(inputs, **kw)
+    except Exception as e:  # noqa: BLE001
+        v.bad(exc_sig(e, "refused-map-second-run-same-object"), f"second map of the same pipeline object into the same folder raised {exc_msg(e)}", **w)
+        return
+    v.count("second_runs_on_same_object")
+    if none:
+        v.count("runs_with_a_None_valued_element")
+    for f in case["funcs"]:
+        for o in f["outs"]:
+            exp = probes.render(env[o])
+            got = probes.render(res[o].output)
+            try:
+                with quiet():
+                    lo = probes.render(load_outputs(o, run_folder=folder))
+            except Exception as e:  # noqa: BLE001
+                lo = f"EXC {exc_msg(e)}"
+            if got != exp:
+                v.bad("mismatch:result-second-run-same-object" + ("/none-element" if none and "None" in exp else ""),
+                      f"{o} of the second run differs from the denotation", got=got[:400], expected=exp[:400], **w)
+                return
+            if lo != exp:
+                v.bad("mismatch:load_outputs-second-run-same-object" + ("/none-element" if none and "None" in exp else ""),
+                      f"load_outputs({o}) after the second run differs from the denotation", got=lo[:400], expected=exp[:400], **w)
+                return
+
+
 def run_case(desc):
     case = get_case(desc)
     v = V()
@@ -295,6 +345,8 @@ def run_case(desc):
             ok = check_run(v, case, st, storage, env, exp_calls, scratch) and ok
         if ok and desc["kind"] == "gen" and desc["i"] % 3 == 0:
             check_repeat_after_fault(v, case, env, exp_calls, scratch, desc["i"])
+        if ok and desc["kind"] == "gen" and desc["i"] % 3 == 1:
+            check_same_object_again(v, case, scratch, desc["i"])
     nt = mapgen.nontrivial(case)
     return v.result(evaluations=v.counters.get("runs", 0), key=mapgen.signature(case) if nt else None,
                     sample={"case": mapgen.describe(case), "storages": desc["storages"],
@@ -311,6 +363,10 @@ def finalize(agg, tier, seed):
               "partial_colon", "zip", "outer", "nomapspec", "root_list", "permuted_out_axes", "colon_on_tuple_output", "autogen_mapspec", "renamed_params"]:
         if agg.classes.get(c, 0) < 10:
             floors.append(f"structural class {c} hit only {agg.classes.get(c, 0)} times (< 10)")
+    if agg.counters.get("second_runs_on_same_object", 0) < 200 or agg.counters.get("runs_with_a_None_valued_element", 0) < 50:
+        floors.append("too few second runs on the same pipeline object / runs with a None-valued element")
+    if agg.classes.get("root_ndarray-int", 0) < 30:
+        floors.append("fewer than 30 cases with a numeric input array")
     if agg.counters.get("first_runs_cut_short:unpicklable", 0) < 20 or agg.counters.get("first_runs_cut_short:raise", 0) < 50:
         floors.append("too few faulted-first-run / repeat scenarios")
     for k in ["runs_file_array", "runs_dict", "runs_shared_memory_dict", "runs_mix", "runs_dict-nofolder"]:
